@@ -34,7 +34,8 @@ class RTFDocumentService:
 
         # Count subline_by header (appears on each page)
         if document.rtf_body.subline_by:
-            additional_rows += 1  # Each subline_by header consumes 1 row
+            # The subline_by heading is a paragraph above the table on every page
+            additional_rows += self._subline_heading_lines(document)
 
         # Count column headers (repeat on each page)
         if document.rtf_column_header:
@@ -65,6 +66,34 @@ class RTFDocumentService:
             additional_rows += 1
 
         return additional_rows
+
+    def _subline_heading_lines(self, document) -> int:
+        """Lines reserved for the subline_by heading paragraph: those of the
+        longest heading in the data when set across the text area (at least 1)."""
+        import polars as pl
+
+        from ..strwidth import get_string_width
+
+        body = document.rtf_body
+        df = document.df
+        page = document.rtf_page
+        if not isinstance(df, pl.DataFrame) or isinstance(body, list):
+            return 1
+        columns = [col for col in body.subline_by if col in df.columns]
+        if not columns or page.width is None or not page.margin:
+            return 1
+        text_width = page.width - page.margin[0] - page.margin[1]
+        if text_width <= 0:
+            return 1
+        lines = 1
+        for values in df.select(columns).unique().iter_rows():
+            text = ", ".join(str(v) for v in values if v is not None)
+            if not text:
+                continue
+            # Rendered in the default font at 9 pt (see the page renderer)
+            width = get_string_width(text, font=1, font_size=9)
+            lines = max(lines, int(width / text_width) + 1)
+        return lines
 
     def _column_header_lines(self, document, header) -> int:
         """Lines a column header row occupies: those of its widest cell at the
